@@ -300,7 +300,7 @@ def run_grid(case):
                 nbc[ax] = "periodical" if nbc[ax] == "reflecting" else "reflecting"
         sp2 = dict(sp, bc=nbc)
         nb2 = neighbor_sets(sp2)
-        ok, e_ = _try(Gc.set_boundary_conditions, dict(nbc))
+        ok, e_ = _try(Gc.set_boundary_conditions, gen.bc_dict_form(nbc, r))
         if not ok:
             bad.add("c", "set_boundary_conditions raised on valid conditions", bc=nbc, error=e_)
             continue
